@@ -291,3 +291,46 @@ Section WireVotes.
     - rewrite last_map_local. exact Hrq.
   Qed.
 End WireVotes.
+
+(* C14: "at no point does an outcome hold more than 2000 channels" — over struct-level histories and over histories on the wire *)
+From DS Require Import Converge ConvergeProofs.
+Section CapHistory.
+  Context (h : Z -> chandef -> list Z).
+
+  Theorem cap_step cf seq prev aos next :
+    1 < seq -> outcome_step h cf seq prev aos = Ok next ->
+    (size (o_defs prev) <= chan_cap)%nat -> (size (o_defs next) <= chan_cap)%nat.
+  Proof.
+    intros Hseq Hstep Hs. destruct (outcome_step_inv h cf seq prev aos next Hseq Hstep) as (rr & obs & ts & aggs & _ & _ & _ & _ & Hc).
+    destruct (codec_commit_fields _ _ _ Hc) as (_ & _ & Hd & _). rewrite Hd. cbn [raw_outcome o_defs].
+    apply cap_invariant. exact Hs.
+  Qed.
+
+  Theorem cap_history cf (es : list event) (e0 : event) :
+    Forall (valid_event h cf) (e0 :: es) -> linked (e0 :: es) -> (size (o_defs (ev_prev e0)) <= chan_cap)%nat ->
+    forall e, e ∈ (e0 :: es) -> (size (o_defs (ev_next e)) <= chan_cap)%nat.
+  Proof.
+    revert e0. induction es as [|e1 es IH]; intros e0 Hv Hl Hs e He.
+    - apply elem_of_list_singleton in He. subst e. inversion Hv as [|? ? [Hq H0] _]; subst. exact (cap_step cf _ _ _ _ Hq H0 Hs).
+    - inversion Hv as [|? ? [Hq H0] Hv']; subst. destruct Hl as [Hlink Hl'].
+      pose proof (cap_step cf _ _ _ _ Hq H0 Hs) as H1.
+      apply elem_of_cons in He. destruct He as [->|He]; [exact H1|].
+      rewrite Hlink in H1. exact (IH e1 Hv' Hl' H1 e He).
+  Qed.
+
+  Context (check : list Z -> option (gmap Z Z)).
+  Theorem cap_on_the_wire cf (bs : list bevent) (b0 : bevent) :
+    check_typed check -> Forall (bvalid h check cf) (b0 :: bs) -> blinked (b0 :: bs) ->
+    (size (o_defs (dec_or_initial cf (bv_prev b0))) <= chan_cap)%nat ->
+    forall b, In b (b0 :: bs) -> (size (o_defs (dec_or_initial cf (bv_next b))) <= chan_cap)%nat.
+  Proof.
+    intros Hck Hv Hl Hs b Hb. destruct (abs_history h check cf _ Hck Hv Hl) as [Hv' Hl']. cbn [map] in Hv', Hl'.
+    apply (cap_history cf (map (abs_event check cf) bs) (abs_event check cf b0) Hv' Hl' Hs (abs_event check cf b)).
+    apply elem_of_list_In. change (abs_event check cf b0 :: map (abs_event check cf) bs) with (map (abs_event check cf) (b0 :: bs)).
+    apply in_map. exact Hb.
+  Qed.
+
+  (* the outcome of the first round (sequence number 1, or undecodable previous bytes) holds no channel at all *)
+  Lemma initial_within_cap cf : (size (o_defs (initial_outcome cf)) <= chan_cap)%nat.
+  Proof. unfold initial_outcome. cbn [o_defs]. rewrite (map_size_empty (M:=gmap Z)). lia. Qed.
+End CapHistory.
